@@ -1029,6 +1029,24 @@ func c04CollisionDetectionExact(r *core.Report) {
 						why = "the membership structure tested before `return ErrCollision` is never marked with the current hash"
 					}
 				}
+				// Form C: the test-and-mark is done by a helper of the package - `if !claim(set, hash) { return ErrCollision }`
+				if c, isCall := core.Unparen(fc.Expr).(*ast.CallExpr); isCall && !fc.Truth {
+					if fo := core.Callee(info, c); fo != nil {
+						if h := p.ByObj[fo.Origin()]; h != nil && h.Body != nil && h.Pkg == f.Pkg {
+							hi := -1
+							for ai, a := range c.Args {
+								if ao := core.ObjOf(info, a); ao != nil && (ao == hashObj || taint[ao]) {
+									hi = ai
+								}
+							}
+							if hi >= 0 && testAndMarkHelper(p, h, hi) {
+								ok = true
+							} else if hi >= 0 {
+								why = "the helper " + h.Key + " that decides the collision does not mark the hash on every path on which it reports 'not seen before'"
+							}
+						}
+					}
+				}
 				// Form B: adjacency comparison X[i].Hash == X[i±1].Hash
 				if be, isB := core.Unparen(fc.Expr).(*ast.BinaryExpr); isB && be.Op == token.EQL && fc.Truth {
 					lx, rx := adjacencyBase(info, be.X), adjacencyBase(info, be.Y)
@@ -1064,6 +1082,81 @@ func c04CollisionDetectionExact(r *core.Report) {
 		r.Check(ok, rule, k, pos(r, colRets[0].Ast), "every pair of keys with the same truncated hash is reported as a collision (membership structure or sorted adjacency)",
 			why+" - a colliding hash domain is accepted and one key answers with the other key's value")
 	}
+}
+
+// testAndMarkHelper: h(.., hash, ..) bool answers true only after it stored into a container parameter at an index derived
+// from the hash parameter, and has a false return under a test that reads the container at such an index.
+func testAndMarkHelper(p *core.Prog, h *core.Func, hashParam int) bool {
+	hp := h.ParamObj(hashParam)
+	if hp == nil {
+		return false
+	}
+	info := h.Pkg.TypesInfo
+	g := p.Graph(h)
+	taint := taintFrom(h, hp)
+	derived := func(e ast.Expr) bool {
+		found := false
+		ast.Inspect(e, func(n ast.Node) bool {
+			if id, ok := n.(*ast.Ident); ok {
+				if o := info.Uses[id]; o != nil && (o == types.Object(hp) || taint[o]) {
+					found = true
+				}
+			}
+			return !found
+		})
+		return found
+	}
+	isStore := func(n *core.GNode) bool {
+		as, ok := n.Ast.(*ast.AssignStmt)
+		if n.Kind != core.KStmt || !ok {
+			return false
+		}
+		for _, l := range as.Lhs {
+			if ix, isIx := core.Unparen(l).(*ast.IndexExpr); isIx && derived(ix.Index) {
+				if o := core.ObjOf(info, ix.X); o != nil && isParamOf(h, o) {
+					return true
+				}
+			}
+		}
+		return false
+	}
+	nTrue, nFalseTested := 0, 0
+	for _, rn := range g.Returns() {
+		res := returnResults(rn)
+		if len(res) != 1 {
+			return false
+		}
+		b, isC := boolConst(info, res[0])
+		if !isC {
+			return false
+		}
+		if b {
+			nTrue++
+			if g.PathAvoiding(g.Entry, func(n *core.GNode) bool { return n == rn }, isStore) != nil {
+				return false
+			}
+		} else {
+			for _, fc := range g.FactsAt(rn) {
+				reads := false
+				ast.Inspect(fc.Expr, func(n ast.Node) bool {
+					if ix, isIx := n.(*ast.IndexExpr); isIx && derived(ix.Index) {
+						reads = true
+					}
+					return true
+				})
+				// the container element read into a local first (chunk := bitmap[bi])
+				for o := range taint {
+					if core.Mentions(info, fc.Expr, o) {
+						reads = true
+					}
+				}
+				if reads {
+					nFalseTested++
+				}
+			}
+		}
+	}
+	return nTrue > 0 && nFalseTested > 0
 }
 
 // adjacencyBase: X for expressions of the form X[i].Hash / X[i-1].Hash / X[i+1].Hash
